@@ -9,7 +9,9 @@
 (*    <<"m", kind, key, ref, delta>>     a mark for the NEXT token: kind S/D (statement / declaration member:    *)
 (*                                       first on its line, delta units deeper than the line of token `ref`),    *)
 (*                                       C (closer: first on its line at ref's indentation), B (control-flow     *)
-(*                                       `begin`, only under begin_style=always_wrap), R / A (registered, no     *)
+(*                                       `begin`, only under begin_style=always_wrap), U (single-statement body   *)
+(*                                       of then / else / do: first on its line, one unit deeper than the line   *)
+(*                                       of the statement that controls it), R / A (registered, no               *)
 (*                                       claim), T (item of a declaration part: at file level it starts a line,  *)
 (*                                       not indented).                                                          *)
 (*                                       ref = 0 is the file level (no indentation).                             *)
@@ -48,8 +50,10 @@ Expand == /\ stack # <<>> /\ Top[1] = "n"
 Mark(kind, ref, delta) == <<"m", kind, nextKey, ref, delta>>
 
 \* @S / @D / @R / @A: a construct starts; its first token gets the next key
-BeginConstruct == /\ stack # <<>> /\ Top[1] = "p" /\ Top[2] \in {"S", "D", "R", "A", "T"}
-                  /\ out' = Append(out, Mark(Top[2], refs[Len(refs)], 1))
+\* @U: the single statement that is the body of a control statement (then / else / do): it refers to the statement that
+\* controls it (the construct being derived), not to the enclosing block
+BeginConstruct == /\ stack # <<>> /\ Top[1] = "p" /\ Top[2] \in {"S", "D", "R", "A", "T", "U"}
+                  /\ out' = Append(out, Mark(Top[2], IF Top[2] = "U" THEN (IF cur = <<>> THEN 0 ELSE cur[Len(cur)]) ELSE refs[Len(refs)], 1))
                   /\ cur' = Append(cur, nextKey)
                   /\ nextKey' = nextKey + 1
                   /\ stack' = Pop
@@ -80,6 +84,13 @@ CloserMark == /\ stack # <<>> /\ Top = <<"p", "C">>
               /\ stack' = Pop
               /\ UNCHANGED <<budget, cur, refs, done>>
 
+\* @E : the next token is the `else` of the `if` statement being derived: first on its line, at the indentation of that statement
+ElseMark == /\ stack # <<>> /\ Top = <<"p", "E">>
+            /\ out' = Append(out, Mark("E", IF cur = <<>> THEN 0 ELSE cur[Len(cur)], 0))
+            /\ nextKey' = nextKey + 1
+            /\ stack' = Pop
+            /\ UNCHANGED <<budget, cur, refs, done>>
+
 BeginMark == /\ stack # <<>> /\ Top = <<"p", "B">>
              /\ out' = Append(out, Mark("B", IF cur = <<>> THEN 0 ELSE cur[Len(cur)], 0))
              \* the `begin` also becomes the current construct's block opener: nothing to do, the block refers to `cur`
@@ -91,7 +102,7 @@ Finish == /\ stack = <<>> /\ ~done
           /\ done' = TRUE
           /\ UNCHANGED <<stack, out, budget, cur, refs, nextKey>>
 
-Next == Terminal \/ Expand \/ BeginConstruct \/ EndConstruct \/ OpenBlock \/ CloseBlock \/ CloserMark \/ BeginMark \/ Finish
+Next == Terminal \/ Expand \/ BeginConstruct \/ EndConstruct \/ OpenBlock \/ CloseBlock \/ CloserMark \/ BeginMark \/ ElseMark \/ Finish
 Spec == Init /\ [][Next]_vars
 
 ---------------------------------------------------------------------------
